@@ -53,7 +53,12 @@ func TestC02Cache(t *testing.T) {
 			out.Emit(vh.M{"e": "reset", "scn": s.Scn, "strategy": s.Strategy, "ttl": s.TTL,
 				"sweep": int(sweepInterval / unit), "unit_ms": int(unit / time.Millisecond), "half": s.Half})
 			t0 := time.Now()
-			tc := timecache.NewTimeCacheWithStrategy(strat, time.Duration(s.TTL)*unit)
+			var tc timecache.TimeCache
+			if s.Strategy == "first" && s.Scn%3 == 0 {
+				tc = timecache.NewTimeCache(time.Duration(s.TTL) * unit) // the default constructor is first-seen
+			} else {
+				tc = timecache.NewTimeCacheWithStrategy(strat, time.Duration(s.TTL)*unit)
+			}
 			defer tc.Done()
 			if s.Half {
 				time.Sleep(unit / 2)
